@@ -490,6 +490,8 @@ def op_statements(d, tier):
 STRINGS = ["'abc'", "'it''s'", "''", "' '", "'a\"b'", "'a\\b'", "'a\\\\b'", "'a\\'b'", "'multi word'", "'%'", "'_'", "'a--b'", "'a/*b*/c'",
            "N'nat'", "E'a\\nb'", "'línea'", "\"dq\"", "`bt`", "'a\nb'", "'a\tb'", "'a' 'b'", "'{x}'", "'$1'", "$$dollar$$", "r'raw\\d'",
            "U&'d\\0061t'", "_utf8'abc'", "'''triple'''"]
+# nested prefix operators: the generated text must not glue two operator characters into another token (--, ~~, !!)
+UNARIES = ["~ ~a", "~ ~ ~a", "- ~a", "~ -a", "- - a", "- - - a", "NOT NOT a", "NOT ~a", "~ (a)", "-(~a)", "~(-a)", "- (- (a))", "~ ~ (a + 1)"]
 MULTILINE_STRINGS = ["'line1\nline2'", "'a\n  b\n\nc'", "N'line1\nline2'", "U&'line1\nline2'", "E'line1\nline2'", "r'line1\nline2'", "$$line1\nline2$$", "b'line1\nline2'", "\"col\nname\"", "`col\nname`", "'''line1\nline2'''", "_utf8'line1\nline2'", "'tab\there\r\nnext'"]
 NUMBERS = ["0", "1", "42", "1.5", "1.", ".5", "0.5", "1e10", "1E10", "1e-3", "1.5e+3", "1.5E-3", "0x1F", "0X1f", "0b101", "X'1F'", "x'1f'", "B'101'",
            "b'1'", "1_000", "9223372036854775808", "00012", "1.50", "-1", "+1", "- -1", "-(-1)", "- 1", "1D", "1L", "1.5F", "1BD", "100000000000000000000.0",
@@ -560,7 +562,7 @@ def literal_context_statements():
 
 def literal_statements():
     out = []
-    for lit in STRINGS + NUMBERS + DATES + INTERVALS + CONSTS + ARRAYS:
+    for lit in STRINGS + NUMBERS + DATES + INTERVALS + CONSTS + ARRAYS + UNARIES:
         out.append(f"SELECT {lit}")
         out.append(f"SELECT a FROM t WHERE b = {lit}")
     for ty in TYPES:
